@@ -37,7 +37,7 @@ def bounded(tier):
 
     def fields(path):
         return {"name": "n%d" % len(path), "content": "c%s" % "".join(map(str, path)), "tail": "t", "prefix": "p", "attributes": {"a": "1"},
-                "nsmap": {"p": "u"}, "extras": {"x:y": "z"}}
+                "nsmap": {"p": "u"}, "extras": {"x:y": "z"} if len(path) != 1 else {}}     # the nodes at depth 1 have no extras
 
     for n in range(1, maxn + 1):
         for shape in nat.shapes(n):
@@ -64,6 +64,11 @@ def bounded(tier):
                     bad = ("parent", "a parent link below the copy's root points outside the copy")
                 elif {id(x) for x in cn} & {id(x) for x in on}:
                     bad = ("shared-node", "copy and original share a node")
+                else:
+                    # independence also among the copied nodes themselves: no container object occurs twice in the copy or is one of the original's
+                    conts = [id(c) for x in cn for c in (x.attributes, x.nsmap, x.extras, x.children)]
+                    if len(set(conts)) != len(conts) or set(conts) & {id(c) for x in on for c in (x.attributes, x.nsmap, x.extras, x.children)}:
+                        bad = ("shared-container", "two nodes of the copy (or the copy and the original) share a dict or child-list object")
                 if bad:
                     b.failures.append(Failure("copy:" + bad[0], bad[1], {"tree": nat.describe(orig_root), "copied": list(root_path)}, bad[1]))
                     continue
